@@ -76,8 +76,8 @@ func scenario(c cfg) sched.Scenario {
 			objs[i] = ss.Obj(i, n).Marshal()
 		}
 		putDone := map[int]bool{}
+		flushedOK := map[int]bool{} // acknowledged before an explicit flush that returned nil
 		blobWrites := 0
-		allPutsDone := func() bool { return len(putDone) == len(c.sizes) }
 		w.OnStep = func(l string) {
 			if l == "blob.Put" || l == "blob.PutBatch" {
 				blobWrites++
@@ -123,7 +123,7 @@ func scenario(c cfg) sched.Scenario {
 					case "getbytes":
 						read(i, true)
 					case "wait-blob-write":
-						s.Block("wait blob write", func() bool { return blobWrites > 0 || allPutsDone() && false })
+						s.Block("wait blob write", func() bool { return blobWrites > 0 || s.TimerFires <= 0 })
 					case "wait":
 						s.Block("wait put", func() bool { return putDone[i] })
 					case "delete":
@@ -134,7 +134,15 @@ func scenario(c cfg) sched.Scenario {
 						res.DelStarted[i] = true
 						w.Sh.Delete(ss.Cnr, []oid.ID{ss.OID(i)})
 					case "flush":
-						w.Sh.FlushWriteCache(false)
+						before := map[int]bool{}
+						for k, v := range res.Acked {
+							before[k] = v
+						}
+						if err := w.Sh.FlushWriteCache(false); err == nil {
+							for k := range before {
+								flushedOK[k] = true
+							}
+						}
 					case "setmode-ro-rw":
 						w.Sh.SetMode(mode.ReadOnly)
 						w.Sh.SetMode(mode.ReadWrite)
@@ -151,7 +159,7 @@ func scenario(c cfg) sched.Scenario {
 			if b, err := w.Sh.GetBytes(ss.Addr(i)); err != nil || !bytes.Equal(b, objs[i]) {
 				res.Unreadable = append(res.Unreadable, i)
 			}
-			if b, err := w.FST.GetBytes(ss.Addr(i)); err != nil || !bytes.Equal(b, objs[i]) {
+			if b, err := w.FST.GetBytes(ss.Addr(i)); flushedOK[i] && (err != nil || !bytes.Equal(b, objs[i])) {
 				res.NotInBlob = append(res.NotInBlob, i)
 			}
 		}
@@ -178,8 +186,8 @@ func scenario(c cfg) sched.Scenario {
 		if len(res.Unreadable) > 0 {
 			return "unreadable-at-quiescence", fmt.Sprintf("%+v", res)
 		}
-		if c.ticks > 0 && len(res.NotInBlob) > 0 {
-			return "not-in-blobstor-after-flush", fmt.Sprintf("%+v", res)
+		if len(res.NotInBlob) > 0 {
+			return "not-in-blobstor-after-successful-explicit-flush", fmt.Sprintf("%+v", res)
 		}
 		return "", ""
 	}
